@@ -17,6 +17,11 @@ self-perpetuating `_ShiftChange` event over generated `ShiftSchedule`s whose bou
 `_ShiftChange` delivery (instant, capacity in force); Lean proves that the pre-fix timer re-arms at the same instant
 forever at such a boundary and that the timer that exists handles every boundary once, in order, never in the past.
 
+Two more timer idioms are modelled the same way (`HappyModel/C07/Timers.lean`, families `timer-tick` / `timer-manual`):
+JobScheduler's periodic `_scheduler_tick` (every tick delivery, `now + int(interval*1e9)` apart) and CRDTStore with
+gossip disabled (interval 0) receiving hand-made `GossipTick`s (exactly one delivery per manual tick).  The general
+progress statement for handlers that emit at `now` with a decreasing rank is proved (`HappyProofs/C07/Ranked.lean`).
+
 Scenario generation (`hv/scenarios/`): every family draws every constructor parameter and every policy / strategy
 variant of its components (`python -m hv.scenarios.coverage` lists what is left), durations from a boundary palette
 (`base.dur_ms`), sizes around the library's internal constants (`base.size_over`), light / overload / burst regimes;
@@ -66,6 +71,18 @@ class C07(core.Property):
         "HappyModel.C07.Rearm.chain_not_past",
         "HappyModel.C07.Rearm.chain_indices",
         "HappyModel.C07.Rearm.chain_exact",
+        "HappyModel.C07.deliveries_at_instant_ranked_bound",
+        "HappyModel.C07.finite_per_instant_ranked_holds",
+        "HappyModel.C07.rank_hypothesis_needed",
+        "HappyModel.C07.Timers.tick_progress",
+        "HappyModel.C07.Timers.tickChain_get",
+        "HappyModel.C07.Timers.guarded_tick_at_most_once_per_instant",
+        "HappyModel.C07.Timers.tick_zero_spins",
+        "HappyModel.C07.Timers.tick_zero_unbounded",
+        "HappyModel.C07.Timers.disabled_manual_tick_schedules_nothing",
+        "HappyModel.C07.Timers.old_disabled_tick_spins",
+        "HappyModel.C07.Timers.warmupNew_never_past",
+        "HappyModel.C07.Timers.warmupOld_past_iff",
     ]
     partial_theorems = {
         "HappyModel.C07.Rearm.chain_exact":
@@ -74,8 +91,8 @@ class C07(core.Property):
         "HappyModel.C07.deliveries_at_instant_bounded":
             "proved under the explicit handler hypothesis StrictFuture (every emitted event is strictly later than now); "
             "the general statement for handlers that may emit at `now` with a decreasing rank "
-            "(`finite_per_instant_ranked : Prop`) is stated, not proved; whether a library component satisfies "
-            "either hypothesis is decided by the monitored scenario runs, not by Lean",
+            "(`finite_per_instant_ranked`) is proved as finite_per_instant_ranked_holds / deliveries_at_instant_ranked_bound; "
+            "whether a library component satisfies either hypothesis is decided by the monitored scenario runs, not by Lean",
         "HappyModel.C07.no_stale_pop":
             "a theorem about the engine model for every handler with EmitsGeNow; that each library component is such a "
             "handler is the monitored claim (`past 0`) — components have no Lean model in C07 itself",
@@ -83,6 +100,8 @@ class C07(core.Property):
     hypotheses = ["EmitsGeNow: every spec a handler returns has time ≥ now (checked on the real components by the push monitor)",
                   "PreGeStart: pre-run events are scheduled at or after the start time",
                   "StrictFuture (progress theorems only): every spec a handler returns has time > now",
+                  "Ranked mc fan (ranked progress theorems): a handler emits at most `fan` events, each strictly later than now or at now "
+                  "with a strictly smaller rank (Ev.data) than the event being handled",
                   "Rearm.Sorted bs: the schedule's boundary instants int(b*1e9) are non-decreasing in schedule order",
                   "Rearm.LossyAt bs t (old-timer theorems only): some boundary stamped t reads back (ns/1e9) strictly before itself"]
     variants = ["current"]
@@ -105,7 +124,9 @@ class C07(core.Property):
             "/verif (component models): " + "; ".join(f"{k}: {v}" for k, v in sorted(MODEL_BACKED_ELSEWHERE.items())) +
             ". Families whose module says MODEL=None are covered by the monitor only. Every 12th case is a `rearm-shift` case: a "
             "generated ShiftSchedule for ShiftedServer, whose `_ShiftChange` deliveries (instant, capacity) are compared with the "
-            "Lean timer model (HappyModel/C07/Rearm.lean) and whose monitored trace is judged like any other.")
+            "Lean timer model (HappyModel/C07/Rearm.lean) and whose monitored trace is judged like any other; every 24th case is a "
+            "`timer-tick` (JobScheduler tick interval / start instant from the duration palette) or `timer-manual` (CRDTStore, gossip "
+            "interval 0, hand-made GossipTicks) case compared with HappyModel/C07/Timers.lean.")
     trusted_base = [
         "hv/scenarios/monitor.py (wraps EventHeap.push/pop of the Simulation instance; reads Simulation._event_heap, _clock, Event._cancelled)",
         "hv/scenarios/fam_*.py scenario builders (drive the real components through a real Simulation)",
@@ -113,6 +134,8 @@ class C07(core.Property):
         "per-instant delivery watchdog with cap 20000 standing in for 'unbounded'",
         "rearm-shift glue: ns = int(b * 1e9) and lossy = (ns / 1e9 < b) are computed in Python floats for each boundary b; "
         "a ShiftedServer subclass overriding handle_event records (now, current_capacity) after each '_ShiftChange'",
+        "timer-tick glue: interval ns = int(interval * 1e9) in Python floats; tick deliveries read from the monitor's delivery "
+        "list by event type '_scheduler_tick'; timer-manual: a CRDTStore subclass overriding handle_event records 'GossipTick' calls",
     ]
     assumptions = [
         "C07 has no per-component Lean model: the model transcript is the theorems' expectation (past 0, timetravel 0, spin 0) for every scenario, "
@@ -139,6 +162,8 @@ class C07(core.Property):
 
         if i % 12 == 5:
             return self._gen_rearm(rng)
+        if i % 24 == 11:
+            return self._gen_timer(rng)
         order = self._order()
         name = order[i % len(order)]
         # 40 %: the family's maximum-coverage configuration (every policy / strategy variant in one run, sizes above
@@ -177,6 +202,103 @@ class C07(core.Property):
                 "t0_ms": rng.randint(1, 50), "end_ms": end_ms, "svc_ms": dur_ms(rng, 1, 40),
                 "jobs_ms": sorted(rng.randint(60, end_ms) for _ in range(rng.randint(0, 12))),
                 "seed": rng.randrange(2**31), "cap": self.CAP}
+
+    # ------------------------------------------------------------------ further modelled timers (Timers.lean)
+    TICK, MANUAL = "timer-tick", "timer-manual"
+
+    def _gen_timer(self, rng):
+        """JobScheduler's periodic `_scheduler_tick` (tick) / CRDTStore with gossip disabled and hand-made GossipTicks (manual)"""
+        from hv.scenarios.base import dur_ms
+
+        end_ms = rng.choice([1000, 2000, 3000])
+        if rng.random() < 0.6:
+            return {"family": self.TICK, "iv_ms": dur_ms(rng, 2, 2100), "t0_ms": rng.choice([0, 0, rng.randint(1, 400)]),
+                    "end_ms": end_ms, "jobs": rng.randint(0, 3), "job_iv_ms": dur_ms(rng, 1, 500),
+                    "seed": rng.randrange(2**31), "cap": self.CAP}
+        ticks = sorted(rng.choice([rng.randint(1, end_ms), rng.choice([100, 500])]) for _ in range(rng.randint(1, 6)))
+        return {"family": self.MANUAL, "manual_ms": ticks, "end_ms": end_ms, "peers": rng.randint(1, 3),
+                "writes": rng.randint(0, 5), "seed": rng.randrange(2**31), "cap": self.CAP}
+
+    @staticmethod
+    def _timer_args(case):
+        end = int(case["end_ms"]) * 1_000_000 + 777
+        if case["family"] == "timer-tick":
+            iv = int(float(case["iv_ms"]) / 1000.0 * 1_000_000_000)          # Duration.from_seconds(tick_interval)
+            return iv, int(case["t0_ms"]) * 1_000_000, end
+        return [int(ms) * 1_000_000 for ms in case["manual_ms"]], end
+
+    def _run_timer(self, case):
+        from happysimulator.core.entity import Entity
+        from happysimulator.core.event import Event
+        from happysimulator.core.simulation import Simulation
+        from happysimulator.core.temporal import Instant
+        from hv.scenarios.base import seed_all
+        from hv.scenarios.monitor import Monitor, RunawayAbort, SpinAbort
+
+        seed_all(int(case["seed"]))
+        if case["family"] == self.TICK:
+            from happysimulator.components.scheduling import JobDefinition, JobScheduler
+
+            _iv, t0, end = self._timer_args(case)
+            sched = JobScheduler("cron", tick_interval=float(case["iv_ms"]) / 1000.0)
+
+            class Worker(Entity):
+                def handle_event(self, event):
+                    return None
+
+            class Starter(Entity):
+                def handle_event(self, event):
+                    return [sched.start()]
+
+            worker, starter = Worker("worker"), Starter("starter")
+            for k in range(int(case["jobs"])):
+                sched.add_job(JobDefinition(name=f"job{k}", target=worker, event_type="Run",
+                                            interval=float(case["job_iv_ms"]) / 1000.0 * (k + 1)))
+            sim = Simulation(end_time=Instant(end), entities=[sched, worker, starter])
+            sim.schedule(Event(time=Instant(t0), event_type="go", target=starter))
+            want = "_scheduler_tick"
+        else:
+            from happysimulator.components.crdt import CRDTStore
+            from happysimulator.components.network import Network, datacenter_network
+
+            manual, end = self._timer_args(case)
+            net = Network(name="net")
+            tick_log = []
+
+            class LoggedStore(CRDTStore):
+                def handle_event(self, event):      # generator continuations do not come through here
+                    if event.event_type == "GossipTick":
+                        tick_log.append(self.now.nanoseconds)
+                    return super().handle_event(event)
+
+            a = LoggedStore("node-a", network=net, gossip_interval=0)
+            peers = [CRDTStore(f"node-{chr(98 + i)}", network=net, gossip_interval=0) for i in range(int(case["peers"]))]
+            a.add_peers(peers)
+            for b in peers:
+                b.add_peers([a])
+                net.add_bidirectional_link(a, b, datacenter_network(f"link-{b.name}"))
+            sim = Simulation(end_time=Instant(end), entities=[a, *peers, net])
+            for k in range(int(case["writes"])):
+                sim.schedule(Event(time=Instant(1000 * (k + 1)), event_type="Write", target=a,
+                                   context={"metadata": {"key": f"k{k}", "operation": "increment", "value": 1}}))
+            for t in manual:
+                sim.schedule(Event(time=Instant(t), event_type="GossipTick", target=a))
+            want = "GossipTick"
+        mon = Monitor(sim, cap=int(case.get("cap", self.CAP)), keep_deliveries=True).attach()
+        err = None
+        try:
+            sim.run()
+        except (SpinAbort, RunawayAbort):
+            pass
+        except Exception as e:
+            err = type(e).__name__
+        finally:
+            mon.detach()
+        if case["family"] == self.TICK:
+            log = [t for (t, typ, _tgt) in mon.deliveries if typ == want and t <= end]
+        else:
+            log = [t for t in tick_log if t <= end]
+        return mon, err, log
 
     @staticmethod
     def _rearm_tables(case):
@@ -237,10 +359,15 @@ class C07(core.Property):
     def run_impl(self, case):
         from hv.scenarios.monitor import run_scenario
 
-        if case.get("family") == self.REARM:
-            m, err, log = self._run_rearm(case)
+        if case.get("family") in (self.REARM, self.TICK, self.MANUAL):
+            if case["family"] == self.REARM:
+                m, err, log = self._run_rearm(case)
+                lines = [f"sc {t} {c}" for t, c in log]
+            else:
+                m, err, log = self._run_timer(case)
+                lines = [f"tk {t}" for t in log]
             out = [f"past {m.n_past}", f"timetravel {m.timetravel}", f"spin {m.spin}"]
-            out += [f"sc {t} {c}" for t, c in log]
+            out += lines
             out += [INFO_MARK, f"pushes {m.n_pushes}", f"deliveries {m.n_deliveries}",
                     f"maxPerInstant {m.max_per_instant}", f"cancelled {m.n_cancelled}", f"stalePops {m.n_stale_pops}",
                     f"runaway {m.runaway}", f"error {err or 'none'}", TRACE_MARK]
@@ -268,8 +395,8 @@ class C07(core.Property):
     def compare_view(self, case, impl_out):
         if impl_out and impl_out[0].startswith("IMPL-"):
             return impl_out
-        if case.get("family") == self.REARM and INFO_MARK in impl_out:
-            return impl_out[:impl_out.index(INFO_MARK)]       # summary + the `_ShiftChange` deliveries
+        if case.get("family") in (self.REARM, self.TICK, self.MANUAL) and INFO_MARK in impl_out:
+            return impl_out[:impl_out.index(INFO_MARK)]       # summary + the timer's deliveries
         return impl_out[:3]
 
     def model_block(self, case, variant):
@@ -277,6 +404,12 @@ class C07(core.Property):
             bounds, shifts, t0, end = self._rearm_tables(case)
             return (f"rearm {int(case['default'])} {t0} {end}",
                     [f"b {ns} {l}" for ns, l in bounds] + [f"s {lo} {hi} {c}" for lo, hi, c in shifts])
+        if case.get("family") == self.TICK:
+            iv, t0, end = self._timer_args(case)
+            return (f"tick {iv} {t0} {end}", [])
+        if case.get("family") == self.MANUAL:
+            manual, end = self._timer_args(case)
+            return (f"manualtick {end}", [f"m {t}" for t in manual])
         return (f"model {case['family']}", [])
 
     def judge_block(self, case, impl_out):
@@ -286,8 +419,8 @@ class C07(core.Property):
         return (f"judge {case['family']} {int(case.get('cap', self.CAP))}", impl_out[k + 1:])
 
     def nontrivial_key(self, case, impl_out):
-        if case.get("family") == self.REARM:
-            n = sum(1 for ln in impl_out if ln.startswith("sc "))
+        if case.get("family") in (self.REARM, self.TICK, self.MANUAL):
+            n = sum(1 for ln in impl_out if ln.startswith(("sc ", "tk ")))
             return json.dumps(case, sort_keys=True) if n >= 1 and "error none" in impl_out else None
         info = {ln.split()[0]: ln.split()[1:] for ln in impl_out[:12] if ln and not ln.startswith("-")}
         err = " ".join(info.get("error", ["none"]))
@@ -308,6 +441,8 @@ class C07(core.Property):
     def shrink(self, case, budget=True):
         """generic structural shrink of cfg: drop list elements, lower numbers, shorten the horizon"""
         self._shrunk = getattr(self, "_shrunk", 0)
+        if case.get("family") in (self.TICK, self.MANUAL):
+            return
         if case.get("family") == self.REARM:
             for k in range(len(case["shifts"])):
                 if len(case["shifts"]) > 1:
@@ -357,6 +492,8 @@ class C07(core.Property):
 
         if case.get("family") == self.REARM:
             return self._gen_rearm(rng)
+        if case.get("family") in (self.TICK, self.MANUAL):
+            return self._gen_timer(rng)
         fam = self._families()[case["family"]]
         if rng.random() < 0.5:
             return {**case, "seed": rng.randrange(2**31)}
